@@ -1440,7 +1440,16 @@ class Parallel(Logger):
         # the queue by itself as soon as the callback is triggered to be able
         # to return the results in the order of completion.
 
-        job = self._backend.submit(batch, callback=batch_tracker)
+        try:
+            job = self._backend.submit(batch, callback=batch_tracker)
+        except Exception as e:
+            # The backend cannot accept the batch, e.g. because a worker died
+            # and the executor is broken. As this part of the code can be
+            # executed in a callback thread of the backend, where exceptions
+            # are swallowed, register the error as the outcome of the batch:
+            # it will be raised in the user's thread.
+            batch_tracker._register_outcome(dict(result=e, status=TASK_ERROR))
+            return
         batch_tracker.register_job(job)
 
     def _register_new_job(self, batch_tracker):
